@@ -14,6 +14,7 @@ sys.path.insert(0, str(Path(__file__).resolve().parent.parent / 'translate'))
 import lib  # noqa
 import c10_gen  # noqa
 import c10_tables  # noqa
+import c10_objpin  # noqa
 
 PID = 'C10'
 COQ_TYPE = {'tet': 'Tet', 'tet2': 'Tet2', 'pyr': 'Pyr', 'prism': 'Prism', 'hex': 'Hex'}
@@ -109,7 +110,8 @@ def frac_int(nd):
 # ------------------------------------------------------------- impl runner
 def run_impl(ctx, cases, tag='impl'):
     spec = {'work': str(ctx.scratch / 'work'), 'out': str(ctx.scratch / f'{tag}_out.json'),
-            'cases': [{k: c[k] for k in ('id', 'nodes', 'blocks', 'want', 'scale', 'offset', 'move', 'moved_blocks', 'history') if k in c}
+            'cases': [{k: c[k] for k in ('id', 'nodes', 'blocks', 'want', 'scale', 'offset', 'move', 'moved_blocks', 'history',
+                                            'mod_args', 'dtype') if k in c}
                       for c in cases]}
     sp = ctx.scratch / f'{tag}_spec.json'
     sp.write_text(json.dumps(spec))
@@ -121,7 +123,7 @@ def run_impl(ctx, cases, tag='impl'):
 
 
 def want_for(case):
-    w = ['surface', 'to_surface', 'volumes', 'obj']
+    w = ['surface', 'to_surface', 'volumes', 'obj', 'to_surface_all']
     if set(case['blocks']) <= {'tet'} or set(case['blocks']) <= {'tet2'}:
         w.append('fistr')
     return w
@@ -221,6 +223,7 @@ def case_checks(case, r, expect_ok=True):
         exp = case.get('expect', {})
         out += [T, T, T,
                 ('wf_mesh m%d' % i) if exp.get('wf', True) else ('negb (wf_mesh m%d)' % i),
+                T if exp.get('oc', True) is None else
                 ('oriented_conforming m%d' % i) if exp.get('oc', True)
                 else ('negb (oriented_conforming m%d)' % i), T]
     assert len(out) == len(CHECKS)
@@ -383,6 +386,17 @@ def oracle(case, r):
                 if nid not in xyz or uncoord(row, case) != list(map(Fraction, xyz[nid])):
                     bad.append(('to_surface_node_coordinates', {'node': nid}))
                     break
+    ta = r.get('to_surface_all')
+    if ta is not None:
+        if is_err(ta):
+            bad.append(('to_surface_all_raises', ta.get('msg')))
+        else:
+            got = [tuple(f) for k in ('tri', 'quad') for f in ta['elements'].get(k, {'data': []})['data']]
+            if got != surf:
+                bad.append(('to_surface_keep_nodes_differs', {'n': len(got)}))
+            if ta['nodes'] != ids or [uncoord(row, case) for row in ta['node_xyz']] != \
+                    [list(map(Fraction, n[1])) for n in case['nodes']]:
+                bad.append(('to_surface_keep_nodes_node_table', None))
     ob = r.get('obj')
     if ob is not None:
         if is_err(ob):
@@ -433,19 +447,82 @@ def round_result(rnd):
     return dict(rnd)
 
 
+def expected_state(case, mesh, op):
+    """harness-side model of the in-place modifiers: mesh (nodes, blocks) -> mesh; None = not predicted"""
+    nodes, blocks = mesh
+    args = case.get('mod_args', {})
+    if op == 'M:remove_useless_nodes':
+        used = {i for es in blocks.values() for _, c in es for i in c}
+        if used == {n[0] for n in nodes}:
+            return nodes, blocks
+        return sorted([n for n in nodes if n[0] in used], key=lambda n: n[0]), blocks
+    if op in ('M:assign_new', 'M:assign_same'):
+        (typ, es), = blocks.items()
+        if op == 'M:assign_new':
+            perm = args['perm']
+        else:
+            a, b = args['swap']
+            perm = list(range(len(es)))
+            perm[a], perm[b] = b, a
+        return nodes, {typ: [[es[j][0], es[perm[j]][1]] for j in range(len(es))]}
+    if op == 'M:move_nodes':
+        return [[n[0], list(c)] for n, c in zip(nodes, args['coords'])], blocks
+    return None
+
+
+def mesh_of_state(case, st):
+    nodes = []
+    for i, row in zip(st['nodes'], st['xyz']):
+        c = coord_int(row, case)
+        nodes.append([i, c if c is not None else [float(Fraction(*x)) for x in row]])
+    blocks = {t: [[e, list(d)] for e, d in zip(v['ids'], v['data'])] for t, v in st['blocks'].items()}
+    return nodes, {t: blocks[t] for t in c10_gen.TYPE_ORDER if t in blocks}
+
+
+def rounds_of(case, r):
+    """-> list of (round index, mesh in force, views, modifier problems)"""
+    mesh = ([[n[0], list(n[1])] for n in case['nodes']],
+            {t: [[e, list(c)] for e, c in es] for t, es in case['blocks'].items()})
+    out = []
+    for k, (ops, rnd) in enumerate(zip(case['history'], r.get('history') or [])):
+        probs = []
+        mods = [op for op in ops if op.startswith('M:')]
+        if 'state' in rnd:
+            obs = mesh_of_state(case, rnd['state'])
+            exp = mesh
+            for op in mods:
+                exp = expected_state(case, exp, op) if exp is not None else None
+            if exp is not None and (exp[0] != obs[0] or exp[1] != obs[1]):
+                probs.append(('modifier_result_unexpected:' + ','.join(mods), None))
+            if exp is None:
+                # make_elements_positive: same ids, same node sets per element
+                same = {t: [(e, sorted(c)) for e, c in es] for t, es in obs[1].items()} == \
+                    {t: [(e, sorted(c)) for e, c in es] for t, es in mesh[1].items()} and obs[0] == mesh[0]
+                if not same:
+                    probs.append(('modifier_changed_more_than_orientation', None))
+            mesh = obs
+        views = {v: x for v, x in rnd.items() if v != 'state'}
+        out.append((k, mesh, views, probs, bool(mods)))
+    return out
+
+
 def judge(case, r):
     """the property on everything the implementation returned: one view each on fresh objects, or
-    several rounds of views on ONE object (each round judged, later views must equal earlier ones)"""
+    several rounds of views on ONE object, possibly modified in place between the rounds (each round
+    is judged on the mesh then in force; without a modification later views must equal earlier ones)"""
     if 'history' not in case:
         return oracle(case, r)
     bad = []
     seen = {}
-    for k, rnd in enumerate(r.get('history') or []):
+    for k, mesh, views, probs, modified in rounds_of(case, r):
         tag = '' if k == 0 else 'later_round_%d:' % k
-        rr = round_result(rnd)
-        if 'surface' in rr:
-            bad += [(tag + a, b) for a, b in oracle(case, rr)]
-        for view, val in rr.items():
+        bad += [(tag + a, b) for a, b in probs]
+        if modified:
+            seen = {}
+        ck = dict(case, nodes=mesh[0], blocks=mesh[1])
+        if 'surface' in views and k >= case.get('oracle_from_round', 0):
+            bad += [(tag + a, b) for a, b in oracle(ck, views)]
+        for view, val in views.items():
             if is_err(val):
                 bad.append((tag + view + '_raises', val.get('msg')))
             elif view in seen and seen[view] != val:
@@ -459,14 +536,37 @@ def expand_history(cases, res):
     for c in cases:
         if 'history' not in c:
             continue
-        for k, rnd in enumerate(res[c['id']].get('history') or []):
+        for k, mesh, views, probs, modified in rounds_of(c, res[c['id']]):
+            if not views:
+                continue
             c2 = dict(c, id=len(cases) + len(extra), derived=True, first_case=c['id'],
+                      nodes=mesh[0], blocks=mesh[1],
+                      valid=c['valid'] and k >= c.get('oracle_from_round', 0),
+                      expect={'wf': True, 'oc': None},
                       meta=dict(c['meta'], stage='round_%d' % k))
-            rr = round_result(rnd)
+            rr = dict(views)
             rr['id'] = c2['id']
             res[c2['id']] = rr
             extra.append(c2)
     return extra
+
+
+def plate(rng, n):
+    """one-layer n x n hex plate (2 n (n + 2) boundary quads... 2 n^2 + 4 n): sizes beyond the
+    thresholds a block-wise writer may have; judged by the Python oracle only"""
+    def nid(i, j, k):
+        return 11 + 3 * (i + (n + 1) * (j + (n + 1) * k))
+    nodes = [[nid(i, j, k), [2 * i, 2 * j, 2 * k]] for k in range(2) for j in range(n + 1) for i in range(n + 1)]
+    rng.shuffle(nodes)
+    es = []
+    for j in range(n):
+        for i in range(n):
+            es.append([1 + i + n * j, [nid(i, j, 0), nid(i + 1, j, 0), nid(i + 1, j + 1, 0), nid(i, j + 1, 0),
+                                       nid(i, j, 1), nid(i + 1, j, 1), nid(i + 1, j + 1, 1), nid(i, j + 1, 1)]])
+    return {'nodes': nodes, 'blocks': {'hex': es}, 'valid': True, 'oracle_only': True,
+            'want': ['surface', 'obj', 'to_surface'],
+            'meta': {'kind': 'plate', 'dims': [n, n, 1], 'n_elem': n * n, 'boundary_faces': 2 * n * n + 4 * n,
+                     'id_mode': 'sparse', 'affine': 'id'}}
 
 
 # ------------------------------------------------------------------ cases
@@ -477,7 +577,7 @@ def gen_cases(ctx):
     kinds = ['hex', 'tet', 'pyr', 'prism', 'hexpyr', 'mix', 'tetprism', 'tet', 'mix']
     for k in range(n_valid):
         kind = kinds[k % len(kinds)]
-        tet2 = kind == 'tet' and rng.random() < 0.5
+        tet2 = kind == 'tet' and rng.choice([False, True, 'some'])
         m = c10_gen.gen_mesh(rng, kind=kind, tet2=tet2, max_elems=40 if ctx.tier == 'quick' else 60)
         c = {'nodes': m['nodes'], 'blocks': m['blocks'], 'meta': m['meta'], 'valid': True}
         # length scale (exact powers of two): volumes scale by s^3 (C10_volume_scale), the surface
@@ -490,6 +590,10 @@ def gen_cases(ctx):
         # scales): the surface and the OBJ text must not care; volumes are not requested there (femio's
         # centroid volume kernels accumulate origin-based determinants in float32 and lose all accuracy at
         # such offsets — a C11 matter, see notes/C10.md)
+        if k % 10 == 2 and 'scale' not in c:
+            # coordinate dtype other than float64 (integer coordinates of the lattice are exact in all)
+            c['dtype'] = ['float32', 'int64', 'int32'][(k // 10) % 3]
+            c['meta'] = dict(c['meta'], dtype=c['dtype'])
         if k % 6 == 5:
             c['offset'] = [rng.choice([-1, 1]) * rng.randint(2 * 10 ** 6, 2 * 10 ** 7) for _ in range(3)]
             c['meta'] = dict(c['meta'], offset='1e6..1e7')
@@ -503,18 +607,55 @@ def gen_cases(ctx):
         [['surface', 'obj'], ['obj', 'to_surface', 'surface']],
         [['to_surface', 'fistr'], ['surface', 'obj'], ['obj', 'surface', 'to_surface']],
         [['obj', 'obj'], ['fistr', 'surface', 'to_surface']],
+        [['surface'], ['X:other', 'to_surface', 'surface', 'obj']],
+        # an in-place MODIFICATION between the views: every later view is a function of the new mesh
+        [['surface', 'to_surface'], ['M:remove_useless_nodes', 'surface', 'to_surface', 'obj', 'fistr']],
+        [['surface'], ['M:remove_useless_nodes', 'to_surface', 'surface']],
+        [['surface', 'obj'], ['M:move_nodes', 'surface', 'to_surface', 'obj']],
+        [['surface'], ['M:assign_new', 'surface', 'to_surface', 'fistr']],
+        [['to_surface', 'surface'], ['M:assign_same', 'surface', 'obj', 'to_surface', 'fistr']],
+        [['surface'], ['M:positive', 'surface', 'to_surface', 'obj']],
+        [['surface', 'to_surface'], ['M:positive2', 'to_surface', 'surface', 'fistr']],
     ]
     hkinds = ['prism', 'pyr', 'mix', 'hexpyr', 'tetprism', 'tet', 'hex']
-    for k in range(21 if ctx.tier == 'quick' else 210):
-        kind = hkinds[k % len(hkinds)]
+    single = ['prism', 'pyr', 'tet', 'hex']
+    n_hist = 39 if ctx.tier == 'quick' else 390
+    for k in range(n_hist):
+        tpl = templates[k % len(templates)]
+        mods = [op for rnd in tpl for op in rnd if op.startswith('M:')]
+        needs_single = any(op in ('M:assign_new', 'M:assign_same', 'M:positive', 'M:positive2') for op in mods)
+        kind = single[(k // len(templates)) % len(single)] if needs_single else hkinds[k % len(hkinds)]
+        if any(op.startswith('M:positive') for op in mods):
+            kind = ['tet', 'hex'][(k // len(templates)) % 2]      # _permute exists for tet and hex only
+        kw = {}
+        if 'M:remove_useless_nodes' in mods:
+            kw = {'extra_nodes': rng.choice([1, 3, 5]), 'extra_pos': ['first', 'middle', 'last'][(k // len(templates)) % 3]}
+        if any(op.startswith('M:positive') for op in mods):
+            kw = {'invert_some': 0.4}
         m = c10_gen.gen_mesh(rng, kind=kind, dims=rng.choice([(1, 1, 1), (2, 1, 1), (2, 2, 1), (2, 2, 2)]),
-                             max_elems=30)
+                             max_elems=30, **kw)
         tets_only = set(m['blocks']) <= {'tet'}
-        hist = [[op for op in rnd if op != 'fistr' or tets_only] for rnd in templates[k % len(templates)]]
-        hist = [list(dict.fromkeys(rnd)) if k % len(templates) != 4 else rnd for rnd in hist]
+        hist = [list(dict.fromkeys(op for op in rnd if op != 'fistr' or tets_only)) for rnd in tpl]
+        if k % len(templates) == 4:
+            hist[0] = ['obj', 'obj']
         c = {'nodes': m['nodes'], 'blocks': m['blocks'], 'valid': True, 'history': hist, 'want': ['history'],
              'meta': dict(m['meta'], history='|'.join(','.join(r) for r in hist))}
+        n_el = sum(len(v) for v in m['blocks'].values())
+        if needs_single and len(m['blocks']) == 1 and n_el >= 1:
+            perm = list(range(n_el))
+            rng.shuffle(perm)
+            c['mod_args'] = {'perm': perm, 'swap': [rng.randrange(n_el), rng.randrange(n_el)]}
+        elif needs_single:
+            continue
+        if 'M:move_nodes' in mods:
+            name, M = rng.choice([a for a in c10_gen.AFFINE if c10_gen.det3(*a[1]) > 0 and a[0] != 'id'])
+            t = (rng.randint(-6, 6), rng.randint(-6, 6), rng.randint(-6, 6))
+            c['mod_args'] = {'coords': [list(c10_gen.mat_apply(M, t, p)) for _, p in m['nodes']]}
+        if any(op.startswith('M:positive') for op in mods):
+            c['oracle_from_round'] = 1      # before make_elements_positive the mesh is not oriented
         cases.append(c)
+    # one plate with more than 8 192 boundary quadrilaterals (oracle on the implementation only)
+    cases.append(plate(rng, 67))
     # single reference-like elements of each type (any table slip shows here first)
     for kind in ['hex', 'tet', 'pyr', 'prism']:
         for aff in c10_gen.AFFINE[:3]:
@@ -567,6 +708,8 @@ def signature(case, check):
 def shrink(ctx, case, still_fails, budget=8):
     """greedy element removal while `still_fails(case)` holds"""
     cur = case
+    if case.get('mod_args') or case.get('oracle_only'):
+        return cur          # arguments of the modifiers refer to rows / the size is the point
     for _ in range(budget):
         cands = []
         for typ, es in cur['blocks'].items():
@@ -641,6 +784,12 @@ def main(ctx):
                                     'note': 'translator failed closed'})
     model_ok, _, _ = lib.coq_make(['C10/Corr.vo']) if tie_ok else (False, '', 0)
 
+    # 2b. exact-body tie of the OBJ writer (size-dependent behaviour is out of reach of the in-Coq
+    # evaluation): a rewrite is tie-broken and widens the search to > 8 192 and > 65 536 faces
+    obj_ok, obj_fp = c10_objpin.check(str(lib.REPO))
+    ctx.sources['femio/formats/obj/write_obj.py:OBJWriter(ast)'] = obj_fp
+    ctx.notes['obj_writer_pinned'] = obj_ok
+
     # 3. cases: corpus first
     cases = []
     corpus = sorted((lib.VERIF / 'corpus' / PID).glob('*.json')) if (lib.VERIF / 'corpus' / PID).exists() else []
@@ -649,6 +798,10 @@ def main(ctx):
         c['meta'] = dict(c.get('meta', {}), corpus=p.name)
         cases.append(c)
     gen = gen_cases(ctx)
+    if not obj_ok:
+        ctx.log('OBJWriter differs from the pinned body: extended search with large plates')
+        gen.append(plate(ctx.rng, 182))
+        gen.append(plate(ctx.rng, 91))
     cases = cases + gen
     for i, c in enumerate(cases):
         c['id'] = i
@@ -691,9 +844,11 @@ def main(ctx):
     # 5. correspondence (model evaluated inside Coq)
     failing = {}
     if model_ok:
-        failing = run_coq_cases(ctx, [c for c in cases if 'history' not in c or c.get('derived')], res, 'Corr')
+        failing = run_coq_cases(ctx, [c for c in cases if ('history' not in c or c.get('derived'))
+                                      and not c.get('oracle_only')], res, 'Corr')
         n_dis = len(failing)
-        ctx.corr = {'cases': sum(1 for c in cases if 'history' not in c or c.get('derived')),
+        ctx.corr = {'cases': sum(1 for c in cases if ('history' not in c or c.get('derived'))
+                                 and not c.get('oracle_only')),
                     'checks_per_case': CHECKS, 'disagreements': n_dis,
                     'valid_stream': sum(1 for c in cases if c['valid']),
                     'second_stream': sum(1 for c in cases if not c['valid'])}
@@ -714,8 +869,10 @@ def main(ctx):
         ob = judge(dict(small, id=0), rr)
         ctx.violation('impl-violation',
                       {'nodes': small['nodes'], 'blocks': small['blocks'], 'meta': c['meta'],
-                       'scale': small.get('scale'), 'offset': small.get('offset'),
-                       'history': small.get('history'), 'want': small['want'], 'shrunk_from_elements': sum(len(v) for v in c['blocks'].values())},
+                       'scale': small.get('scale'), 'offset': small.get('offset'), 'dtype': small.get('dtype'),
+                       'history': small.get('history'), 'mod_args': small.get('mod_args'),
+                       'oracle_from_round': small.get('oracle_from_round'),
+                       'oracle_only': small.get('oracle_only'), 'want': small['want'], 'shrunk_from_elements': sum(len(v) for v in c['blocks'].values())},
                       'surface = faces owned by exactly one element, closed, outward, enclosing the element '
                       'volumes; to_surface / OBJ / fistr describe the same faces',
                       {'failed_checks': [[a, b] for a, b in (ob or bads)][:4]},
@@ -729,12 +886,19 @@ def main(ctx):
         what = 'scratch file did not compile' if chks is None else ','.join(chks)
         ctx.violation('correspondence',
                       {'nodes': c['nodes'], 'blocks': c['blocks'], 'meta': c['meta'], 'want': c['want'],
-                       'scale': c.get('scale'), 'offset': c.get('offset'), 'history': c.get('history')},
+                       'scale': c.get('scale'), 'offset': c.get('offset'), 'history': c.get('history'),
+                       'mod_args': c.get('mod_args'), 'dtype': c.get('dtype')},
                       'model = implementation on ' + what, {'failing_checks': chks,
                                                            'impl': {k: (v if is_err(v) else '...') for k, v in res[cid].items() if k != 'id'}},
                       'correspondence C10 (Corr.v checks ' + what + ')', found_input=False,
                       signature=signature(c, what), what='model and implementation disagree: ' + what)
         reported += 1
+    if not obj_ok and not oracle_bad:
+        ctx.violation('tie-broken', {'fingerprint': obj_fp, 'pinned': c10_objpin.PINNED},
+                      'class OBJWriter has the pinned abstract syntax (translate/c10_objpin.py)', 'it was rewritten',
+                      'exact-body tie of OBJWriter (Model.write_obj)', found_input=False,
+                      signature={'kind': 'tie-broken', 'what': 'OBJWriter'},
+                      what='OBJWriter rewritten; extended search (plates with 8 710 / 34 000 / 67 000 faces) found nothing')
     if not tie_ok and not oracle_bad:
         ctx.violation('tie-broken', {'translator_error': ctx.notes.get('translator_error')},
                       'translator accepts _generate_all_faces / extract_surface_fistr', 'fail-closed',
@@ -756,7 +920,7 @@ def replay(path):
     ctx = lib.Ctx(PID, 'quick')
     case = {'id': 0, 'nodes': c['nodes'], 'blocks': c['blocks'], 'meta': c.get('meta', {}),
             'want': c.get('want') or want_for(c), 'valid': True}
-    for k in ('scale', 'offset'):
+    for k in ('scale', 'offset', 'mod_args', 'dtype', 'oracle_from_round', 'oracle_only'):
         if c.get(k):
             case[k] = c[k]
     if c.get('history'):
